@@ -202,6 +202,23 @@ def make_scenario_files(sc, workdir):
     return files, refs
 
 
+def opens_with_version(path, workdir):
+    cp = os.path.join(workdir, "probe.sqlite")
+    shutil.copyfile(path, cp)
+    try:
+        c = sqlite3.connect(cp)
+        try:
+            c.execute("PRAGMA foreign_key_check").fetchall()
+            c.execute("SELECT version FROM version").fetchall()
+            return True
+        finally:
+            c.close()
+    except sqlite3.Error:
+        return False
+    finally:
+        os.unlink(cp)
+
+
 def reference_info(schema, version, workdir):
     p = os.path.join(workdir, "reference.sqlite")
     build_db(p, schema, version, [version])
@@ -346,7 +363,7 @@ class Checker(object):
             self.unchanged(shas, where, ignore=(DB, DB + ".TMP"))
             if DB in shas and not is_complete(infos[DB], self.ref, self.target):
                 self.bad("%s exists but is not the complete database" % DB, where)
-        elif exp in ("reject", "keep", "refuse_existing", "open_only"):
+        elif exp in ("reject", "keep", "refuse_existing", "open_only", "unchanged_only"):
             self.unchanged(shas, where)
         elif exp == "reject_backup":
             v = resolve_version(self.sc["version_rows"][0], self.target)
@@ -432,12 +449,25 @@ def eval_scenario(args):
             ob.add_ref(files[DB])
         desc0, shas0, infos0, _ = ob.directory(tmpl, {})
         exp = expect_class(sc)
-        if sc["cls"] == "trunc" and exp == "reject" and infos0.get(DB) is not None:
-            # cutting off trailing zero bytes of the last page leaves a file that SQLite reads
-            # as the very same database (short reads are zero-filled): it IS a current-version
-            # database, so "keep" is what C19 demands, not "reject"
-            exp = "keep"
-            res["truncation_still_a_database"] = True
+        if sc["cls"] == "trunc":
+            info0 = infos0.get(DB)
+            if info0 is not None and info0["vers"] and info0["vers"][0] == (targets()[sc["schema"]], "integer") \
+                    and not info0["fk"]:
+                # only trailing bytes of the last page are missing and SQLite zero-fills short
+                # reads: the file IS a readable current-version database (identical to the full
+                # one, or differing in the last bytes of its last record), so "keep" is what
+                # C19 demands, not "reject"
+                if exp == "reject":
+                    exp = "keep"
+                res["truncation_still_a_database"] = True
+            elif infos0.get(DB) is None and opens_with_version(os.path.join(tmpl, DB), work):
+                # less than one page is missing: SQLite opens the file, the schema and the
+                # version table are readable, only some payload page is damaged.  The server
+                # does not look at it (no integrity check at start-up); C19 then only demands
+                # that the file is not touched.  Outside the vocabulary of the model.
+                if exp == "reject":
+                    exp = "unchanged_only"
+                res["damaged_tail"] = True
         if exp == "upgrade" and sc["prop"] == "C19":
             exp = "skip"          # an upgradable older database is C20's subject
         res["expect"] = exp
@@ -570,7 +600,7 @@ def gen_scenarios(prop, tier, rng):
         kw["subseed"] = rng.getrandbits(48)
         scs.append(kw)
     if prop == "C19":
-        reps = 4 if quick else 40
+        reps = 12 if quick else 100
         for _ in range(reps):
             for schema in ("channel", "usage"):
                 for e in ("cou_", "create_"):
@@ -591,7 +621,7 @@ def gen_scenarios(prop, tier, rng):
             add(entry="open_existing", schema="channel", cls="db", version_rows=["t0"], fkbad=True)
             add(entry="cou_channel", schema="channel", cls="db", version_rows=[2], other_schema="usage")
     elif prop == "C20":
-        n = 60 if quick else 900
+        n = 180 if quick else 1400
         for i in range(n):
             add(entry="cou_usage", schema="usage", cls="db", file_version=1, version_rows=[1],
                 backup=[None, None, "junk", "stale", "empty"][i % 5],
@@ -642,7 +672,8 @@ def run(prop_id, tier="quick", seed=1, only=None):
         results.sort(key=lambda r: r["sc"]["index"])
         t_real = time.time() - t0
         # model predictions, one driver call for all scenarios
-        todo = [r for r in results if r.get("line") and not r["error"] and "labels" in r]
+        todo = [r for r in results if r.get("line") and not r["error"] and "labels" in r
+                and not r.get("damaged_tail")]
         mismatches, model_error = [], None
         try:
             preds = obs.model_predict([r["line"] for r in todo])
@@ -696,6 +727,12 @@ def run(prop_id, tier="quick", seed=1, only=None):
             "scenarios": len(results), "violations_total": n_violations, "scenarios_skipped_by_time_budget": skipped_budget,
             "expectation_histogram": hist, "kill_point_histogram": kill_points,
             "infrastructure_errors": errors, "model_error": model_error,
+            "observations": {
+                "truncated_file_still_the_same_database": sum(1 for r in results if r.get("truncation_still_a_database")),
+                "database_with_damaged_last_page_opened_without_complaint_and_left_untouched"
+                "_(not_in_model_vocabulary,_not_compared_with_model)": sum(1 for r in results if r.get("damaged_tail")),
+                "failing_statement_not_seen_by_tracer": sum(1 for r in results if r.get("untraced_failing_statement")),
+            },
             "model_scenarios_compared": len(todo), "processes": nproc,
             "seconds_real_code": round(t_real, 2), "seconds_total": round(time.time() - t0, 2),
             "model_driver": " ".join(obs.driver_cmd()),
